@@ -195,3 +195,17 @@ PROPS["C17"] = {
                    "NOT decided: equality with the Khronos grammar's parameter/capability/extension lists (JSON absent).",
     "assumptions": [],
 }
+
+PROPS["C06"] = {
+    "title": "Every module built with the Builder survives assemble-then-load unchanged",
+    "units": {"quick": ["builder_sections", "builder_core"], "thorough": ["builder_sections", "builder_core", "loader", "assemble"]},
+    "level": "proof",
+    "technique": "one Verus obligation per instruction-emitting Builder method (1147): the place its real text puts the instruction equals the loader's proved dispatch for that opcode; Builder::module bound/version contract; hand-written methods' emitted instruction shapes",
+    "design_ref": "DESIGN.md §4 C06",
+    "explanation": "For each of the 1147 Builder methods that emit one opcode, an obligation states that the section / block / terminator position read off the "
+                   "method's real text is where the loader's dispatch specification (proved for the real loader in C05) files that opcode. builder_core "
+                   "proves the bound written by module(), the instruction shapes of the hand-written methods and that terminators close the block. "
+                   "NOT proved in this revision: operand vectors of the 1012 generated norm_insts / 64 type / 28 terminator methods against the grammar rows, "
+                   "and the end-to-end composition lemma (assemble then load returns the same module).",
+    "assumptions": [],
+}
